@@ -26,9 +26,13 @@ TX_TRAIT = "channel::TxFn"
 def marker_sites(fx, variant):
     """(fn, bb, stmt) constructing Payload::<variant>"""
     out = []
+    # (a Stop literal that is an event loop's own default for a closed mailbox is not a request being submitted)
+    own_default = {(g["def"], st_.get("l")) for g, _bi, st_ in loops.closed_as_stop_sites(fx)} if variant == "Stop" else set()
     for f in fx.d["fns"]:
         b = Body(f)
         for bi, si, st in agg_sites(b, adt=loops.PAYLOAD, variant=variant):
+            if (f["def"], st.get("l")) in own_default:
+                continue
             out.append((f, b, bi, si, st))
     return out
 
